@@ -24,3 +24,31 @@ Theorem C12_error_body_rejected body : bytes body -> (exists b r, body = b :: r 
   match dec_header body with Ok _ _ => False | _ => True end.
 Proof. exact (error_body_rejected body). Qed.
 Print Assumptions C12_error_body_rejected.
+
+(** ** the request: what the client puts into the query is what the handler reads.
+    [q_escape] = url.QueryEscape, [parse_query] = url.ParseQuery as ParseForm applies it to the raw
+    query (Model/Query.v; both are run against net/url on every check).  For EVERY byte string used
+    as a value — file names and patterns with + & % = ; # / ? space, control and non-ASCII bytes —
+    and plain parameter names: the parsed pairs are exactly the pairs sent, in order. *)
+From WT Require Import Model.Query Proofs.QueryProofs.
+
+Theorem C12_query_roundtrip kvs :
+  Forall (fun kv => plain (fst kv) /\ Forall byte (snd kv)) kvs -> kvs <> [] ->
+  parse_query (build_query kvs) = Some kvs.
+Proof. exact (query_roundtrip kvs). Qed.
+Print Assumptions C12_query_roundtrip.
+
+Theorem C12_escape_unescape s : Forall byte s -> q_unescape (q_escape s) = Some s.
+Proof. exact (q_unescape_escape s). Qed.
+Print Assumptions C12_escape_unescape.
+
+(** the escaped form never contains a separator of the query syntax *)
+Theorem C12_escaped_has_no_separator s : Forall byte s -> Forall (fun c => c <> 38 /\ c <> 61 /\ c <> 59) (q_escape s).
+Proof. exact (q_escape_safe s). Qed.
+Print Assumptions C12_escaped_has_no_separator.
+
+Example C12_query_example :
+  parse_query (build_query [([102; 105; 108; 101], [97; 43; 98; 38; 99; 61; 100; 37; 52; 49; 32; 35; 59; 255]);
+                            ([110; 111; 119], [50; 48; 50; 54; 58; 48; 48])])
+  = Some [([102; 105; 108; 101], [97; 43; 98; 38; 99; 61; 100; 37; 52; 49; 32; 35; 59; 255]); ([110; 111; 119], [50; 48; 50; 54; 58; 48; 48])].
+Proof. vm_compute. reflexivity. Qed.
